@@ -15,8 +15,9 @@
 //!   omega (Horner); for group inputs the same through known discrete logs.
 //!
 //! Mismatched MSM lengths are documented panics and are never generated.
-//! Known crash shapes live in their own sub-checks (`msm.empty`,
-//! `msm.identity-base-large`) so that the main sub-checks keep exploring.
+//! `msm.empty` and `msm.identity-base-large` are regression sub-checks for two
+//! repaired defects (multi_exp on empty input; msm_best with an identity base
+//! at n >= 8104); the main sub-checks generate those shapes as well.
 
 use std::{cell::RefCell, sync::Arc, sync::OnceLock};
 
@@ -344,7 +345,7 @@ fn msm_check<C: CurveAffine>(ctx: &CurveCtx<C>, case: &MsmCase, allow_identity: 
         }
     }
     if let Some((me_name, me)) = ctx.multi_exp {
-        if n >= 1 {
+        {
             // projective inputs: half of the cases with Z != 1 representations
             let proj: Vec<C::Curve> = if case.seed & 1 == 0 {
                 items.iter().map(|x| x.proj).collect()
@@ -397,9 +398,8 @@ fn large_strategy(thorough: bool) -> BoxedStrategy<MsmCase> {
     } else {
         prop_oneof![1 => 8090usize..=8103, 5 => 8104usize..=8200].boxed()
     };
-    // no identity bases here (msm.identity-base-large): bmode 3 is mapped to
-    // generators by allow_identity = false
-    (n, 0u8..SMODES.len() as u8, prop::sample::select(vec![0u8, 0, 1, 2, 4, 5, 6]), any::<u64>())
+    // identity bases included (mixed mode: about 1 in 8 terms; all-identity)
+    (n, 0u8..SMODES.len() as u8, prop::sample::select(vec![0u8, 0, 1, 1, 2, 3, 4, 5, 6]), any::<u64>())
         .prop_map(|(n, smode, bmode, seed)| MsmCase { n, smode, bmode, seed })
         .boxed()
 }
@@ -678,12 +678,12 @@ fn msm_suite<C: CurveAffine>(p: &Prop, ctx: &CurveCtx<C>, max_n: usize, cases: u
     );
     p.sub_cfg(
         &format!("msm.large.{name}"),
-        "lengths 8090..8200 (thorough: ..8192, 22000..22060) across the msm_best window switch at ceil(e^9)=8104 (and ceil(e^10)=22027), no identity bases, same scalar/base modes (repeated, equal and opposite bases exercise the batch-affine doubling and cancellation paths); every pool; non-trivial = special scalar or base present",
+        "lengths 8090..8200 (thorough: ..8192, 22000..22060) across the msm_best window switch at ceil(e^9)=8104 (and ceil(e^10)=22027), same scalar/base modes including identity bases (repeated, equal and opposite bases exercise the batch-affine doubling and cancellation paths); every pool; non-trivial = special scalar or base present",
         large_cases,
         large_streams,
         24,
         || large_strategy(!p.quick()),
-        |c| msm_check(ctx, c, false, &pools_for(c, large_all_pools)),
+        |c| msm_check(ctx, c, true, &pools_for(c, large_all_pools)),
     );
 }
 
@@ -715,11 +715,11 @@ pub fn run(p: &Prop) {
     let bn_g1 = CurveCtx::<bn256::G1Affine> { name: "bn256.G1", pool_len: plen, pool: OnceLock::new(), multi_exp: None };
     let bn_g2 = CurveCtx::<bn256::G2Affine> { name: "bn256.G2", pool_len: plen, pool: OnceLock::new(), multi_exp: None };
 
-    msm_suite(p, &bls_g1, 4096, p.tier.pick(1100, 16_000), p.tier.pick(8, 120), 8, usize::MAX);
-    msm_suite(p, &bn_g1, 4096, p.tier.pick(800, 12_000), p.tier.pick(8, 120), 8, usize::MAX);
+    msm_suite(p, &bls_g1, 4096, p.tier.pick(1100, 10_000), p.tier.pick(8, 64), 8, usize::MAX);
+    msm_suite(p, &bn_g1, 4096, p.tier.pick(800, 7_000), p.tier.pick(8, 64), 8, usize::MAX);
     let g2_max = p.tier.pick(2048, 4096);
-    msm_suite(p, &bls_g2, g2_max, p.tier.pick(350, 5_000), p.tier.pick(4, 40), 4, 0);
-    msm_suite(p, &bn_g2, g2_max, p.tier.pick(300, 4_000), p.tier.pick(4, 40), 4, 0);
+    msm_suite(p, &bls_g2, g2_max, p.tier.pick(350, 3_000), p.tier.pick(4, 24), 4, 0);
+    msm_suite(p, &bn_g2, g2_max, p.tier.pick(300, 2_500), p.tier.pick(4, 24), 4, 0);
 
     // --- known crash shapes, isolated
     let mut items = vec![];
@@ -750,7 +750,7 @@ pub fn run(p: &Prop) {
     }
     p.enumerate(
         "msm.identity-base-large",
-        "one identity base (scalar 0, 1, 2 or random; first, middle or last position) among n-1 distinct non-identity bases (random scalars; all 1; or the minimal shape: one neighbour with scalar 2, all others 0), n = 8103 (below the msm_best window switch, control) and 8104 (above): result must equal (sum s_i k_i) G; msm_parallel / msm_serial as controls",
+        "REGRESSION (fixed: msm_best panicked on an identity base at n >= 8104): one identity base (scalar 0, 1, 2 or random; first, middle or last position) among n-1 distinct non-identity bases (random scalars; all 1; or the minimal shape: one neighbour with scalar 2, all others 0), n = 8103 (below the msm_best window switch, control) and 8104 (above): result must equal (sum s_i k_i) G; msm_parallel / msm_serial as controls",
         items,
         8,
         false,
@@ -767,7 +767,7 @@ pub fn run(p: &Prop) {
     .collect();
     p.enumerate(
         "msm.empty",
-        "every MSM entry point on empty (equal-length) inputs returns the identity (the empty sum)",
+        "REGRESSION (fixed: multi_exp panicked on empty input): every MSM entry point on empty (equal-length) inputs returns the identity (the empty sum)",
         entries,
         2,
         true,
